@@ -21,7 +21,7 @@ HARNESSES.append(
                                 "strncpy.0": 20, "vf_harness:/for \\(/": n + 2})
                 for n in (6, 7, 8, 9, 10, 12)]))
 PROPERTY = dict(level='model_checking',
-    claim='All DER primitives of asn1.c and parseGeneralNames are memory-safe on every buffer of every size up to the bound and leave cursor/lengths inside the buffer; stored GeneralNames are NUL-terminated, text entries printable.',
+    claim='All DER primitives of asn1.c and parseGeneralNames are memory-safe on every buffer of every size up to the bound and leave cursor/lengths inside the buffer; stored GeneralNames are NUL-terminated, text entries printable. ocspParseBasicResponse stays inside an arbitrary 40-byte input, its result array and stores only pointer/length pairs inside the input; the DH parameter parser returns the exact privateValueLength (0..40) and its counting loop is bounded.',
     bounds='asn1 primitives: every buffer size 0..10 (thorough 24); GeneralNames: 6- and 9-byte DER (thorough up to 12)',
     outside='the other X.509/CRL/OCSP/PKCS#8/PKCS#12/PEM/key parsers are not yet encoded',
     explanation='All DER primitives of asn1.c and parseGeneralNames are memory-safe on every buffer of every size up to the bound and leave cursor/lengths inside the buffer; stored GeneralNames are NUL-terminated, text entries printable.',
